@@ -422,10 +422,16 @@ class MsgpackSerializer(SerializerBase):
         return msgpack.packb(data, use_bin_type=True, default=self.default)
 
     def loadsCall(self, data):
-        return msgpack.unpackb(self._convertToBytes(data), raw=False, object_hook=self.object_hook)
+        # classes are recreated after unpacking (top-down, like the other serializers do it) instead of by an
+        # object_hook: the members of a serialized class must still be plain data when dict_to_class
+        # handles it, never live objects such as a proxy, which does remote calls when iterated or indexed
+        obj, method, vargs, kwargs = msgpack.unpackb(self._convertToBytes(data), raw=False)
+        vargs = self.recreate_classes(vargs)
+        kwargs = self.recreate_classes(kwargs)
+        return obj, method, vargs, kwargs
 
     def loads(self, data):
-        return msgpack.unpackb(self._convertToBytes(data), raw=False, object_hook=self.object_hook, ext_hook=self.ext_hook)
+        return self.recreate_classes(msgpack.unpackb(self._convertToBytes(data), raw=False, ext_hook=self.ext_hook))
 
     def default(self, obj):
         replacer = self.__type_replacements.get(type(obj), None)
